@@ -486,7 +486,7 @@ def plan(tier, seed):
         {'id': 'b32-trp-noh', 'input': {'chains': 'W', 'noh': True, 'drop': d(2, 'keepcb')}, 'opts': ['-ff', 'martini30b32'], 'moves': []},
         {'id': 'm3-sidechains-gone', 'input': {'chains': 'S', 'drop': d(3, 'sidechain')}, 'opts': ['-ff', 'martini3001'], 'moves': [motion()]},
         {'id': 'm3-sidechains-gone-write', 'input': {'chains': 'H', 'drop': d(2, 'sidechain')}, 'opts': ['-ff', 'martini3001'] + WRITE3, 'moves': []},
-        {'id': 'm3-mutate', 'input': {'chains': 'H'}, 'opts': ['-ff', 'martini3001', '-mutate', 'A-GLY29:SER', '-mutate', 'A-ALA7:TRP'], 'moves': []},
+        {'id': 'm3-mutate', 'input': {'chains': 'H'}, 'opts': ['-ff', 'martini3001', '-mutate', 'A-GLY29:SER', '-mutate', 'A-ALA7:TRP', '-mutate', 'A-ALA21:TRP', '-mutate', 'A-ALA24:TRP', '-mutate', 'A-ALA28:PHE', '-mutate', 'A-ALA35:TYR'], 'moves': []},
         {'id': 'm3-chains', 'input': {'chains': 'PSP'}, 'opts': ['-ff', 'martini3001'], 'moves': []},
         {'id': 'm3-go', 'input': {'chains': 'W'}, 'opts': ['-ff', 'martini3001', '-go', '-ss', 'C' * 20], 'moves': []},
         {'id': 'm3-water-bias', 'input': {'chains': 'W'}, 'opts': ['-ff', 'martini3001', '-ss', 'CHHHHHHHCCCCCCCCCCCC', '-water-bias',
@@ -495,13 +495,18 @@ def plan(tier, seed):
         {'id': 'hist-m3-b32', 'history': ['martini3001', 'martini30b32'], 'input': {'chains': 'W', 'drop': d(3)}},
         {'id': 'hist-b32-m3', 'history': ['martini30b32', 'martini3001'], 'input': {'chains': 'S'}},
         {'id': 'el22-dipro-drop', 'input': {'chains': 'P', 'drop': d(2)}, 'opts': ['-ff', 'elnedyn22'] + WRITE3, 'moves': [motion()]},
+        {'id': 'm3-villin', 'input': {'tier1': 'villin/aa.pdb'}, 'opts': ['-ff', 'martini3001'], 'moves': [motion()]},
+        {'id': 'el22-hst5-drop-write', 'input': {'tier1': 'hst5/aa.pdb', 'drop': d(5)}, 'opts': ['-ff', 'elnedyn22'] + WRITE3, 'moves': []},
+        {'id': 'm22-helix-sidechains-gone', 'input': {'chains': 'H', 'drop': d(3, 'sidechain')}, 'opts': ['-ff', 'martini22'], 'moves': [motion()]},
+        {'id': 'm22p-trp-drop-write', 'input': {'chains': 'W', 'drop': d(4)}, 'opts': ['-ff', 'martini22p'] + WRITE3, 'moves': []},
+        {'id': 'b32-chains-drop', 'input': {'chains': 'PW', 'drop': d(4)}, 'opts': ['-ff', 'martini30b32'], 'moves': [motion()]},
         {'id': 'm22p-sheet-noh', 'input': {'chains': 'S', 'noh': True, 'drop': d(2, 'keepcb')}, 'opts': ['-ff', 'martini22p'], 'moves': []},
     ]
     if tier != 'quick':
         k = 0
-        for ff in FF_ALL + ('martini3IDP', 'elnedyn21', 'elnedyn22p'):
+        for ff in (FF_ALL + ('martini3IDP', 'elnedyn21', 'elnedyn22p')) * 3:
             for code in ('P', 'S', 'H', 'W', 'SW'):
-                for variant in ('plain', 'noh', 'drop', 'sidechain'):
+                for variant in ('plain', 'noh', 'drop', 'sidechain', 'drop', 'sidechain', 'keepcb'):
                     k += 1
                     inp = {'chains': code}
                     if variant == 'noh':
@@ -510,15 +515,23 @@ def plan(tier, seed):
                         inp['drop'] = d(rng.randint(1, 6))
                     elif variant == 'sidechain':
                         inp['drop'] = d(rng.randint(1, 3), 'sidechain')
-                    cases.append({'id': 'grid-%s-%s-%s' % (ff, code, variant), 'input': inp,
+                    elif variant == 'keepcb':
+                        inp['noh'] = True
+                        inp['drop'] = d(rng.randint(1, 3), 'keepcb')
+                    cases.append({'id': 'grid-%s-%s-%s-%d' % (ff, code, variant, k), 'input': inp,
                                   'opts': ['-ff', ff] + (WRITE3 if k % 3 == 0 else []), 'moves': [motion()] if k % 2 == 0 else []})
         for name in ('1UBQ/aa.pdb', 'villin/aa.pdb', 'hst5/aa.pdb', 'bpti/aa.pdb', '3i40/3i40.pdb'):
-            for ff in ('martini3001', 'elnedyn22', 'martini22p'):
+            for ff in FF_ALL:
                 cases.append({'id': 'tier1-%s-%s' % (name.split('/')[0], ff), 'input': {'tier1': name}, 'opts': ['-ff', ff],
-                              'moves': [motion()] if ff == 'martini3001' else []})
+                              'moves': [motion()] if ff in ('martini3001', 'elnedyn22') else []})
+                cases.append({'id': 'tier1-%s-%s-drop' % (name.split('/')[0], ff), 'input': {'tier1': name, 'drop': d(8)},
+                              'opts': ['-ff', ff] + WRITE3, 'moves': []})
         for a, b in (('martini3001', 'martini30b32'), ('martini30b32', 'martini22'), ('elnedyn22', 'martini30b32'), ('martini30b32', 'martini3001')):
             for code in ('P', 'H', 'SW'):
                 cases.append({'id': 'hist-%s-%s-%s' % (a, b, code), 'history': [a, b, a], 'input': {'chains': code, 'drop': d(2)}})
+        for ff in FF_ALL[1:]:
+            cases.append({'id': 'mutate-%s' % ff, 'input': {'chains': 'H'}, 'moves': [motion()],
+                          'opts': ['-ff', ff, '-mutate', 'A-ALA7:TRP', '-mutate', 'A-ALA21:HIS', '-mutate', 'A-GLY30:LEU']})
         cases.append({'id': 'm22-ptyr-full', 'input': {'ptyr': True}, 'opts': ['-ff', 'martini22'], 'moves': []})
         cases.append({'id': 'el22-ptyr-full', 'input': {'ptyr': True}, 'opts': ['-ff', 'elnedyn22'], 'moves': []})
         cases.append({'id': 'm3-go-ubq', 'input': {'tier1': '1UBQ/aa.pdb'}, 'opts': ['-ff', 'martini3001', '-go', '-ss', 'C' * 76], 'moves': []})
@@ -591,7 +604,7 @@ def run_case(case, scratch):
 
 FAMILIES = ('cli-particles', 'written-compared', 'null-weight', 'fractional-or-unequal-weights', 'unpositioned-constituent',
             'undefined-position', 'mass-weighted', 'no-centre-weight', 'charge-dummy', 'virtual-site', 'modification-particle',
-            'pairs', 'history-particles', 'single-positioned-constituent', 'write-options-given')
+            'pairs', 'history-particles', 'single-positioned-constituent', 'undefined-with-a-positioned-null-weight-atom', 'write-options-given')
 
 
 def classify(e, fam):
@@ -616,6 +629,7 @@ def classify(e, fam):
     fam['mass-weighted'] += bool(e['cwon'] and len({c['cw'] for c in cons}) > 1)
     fam['no-centre-weight'] += not e['cwon']
     fam['modification-particle'] += bool(e.get('modmade'))
+    fam['undefined-with-a-positioned-null-weight-atom'] += bool(e['isnan'] and not e['dummy'] and any(c['has'] for c in cons))
     fam['single-positioned-constituent'] += sum(1 for c in cons if c['has']) == 1 and not e['isnan']
 
 
